@@ -79,7 +79,8 @@ struct Thread
   // the last operation, for spin detection: a relaxed load that reads the very message the thread's previous operation (also
   // a relaxed load of the same location) read is an iteration of a spin loop (Spinlock::lock) and waits for a newer message
   bool latest_only{false}; // this thread's loads read the latest message from now on
-  bool custom_wait{false}; // blocked on a harness-defined condition (World::custom_wake) instead of on locations
+  bool custom_wait{false}; // blocked on a harness-defined condition (custom_wake) instead of on locations
+  std::function<bool()> custom_wake;
   int last_load_id{-1}, last_load_idx{-1};
   bool last_was_relaxed_load{false};
   std::function<void()> body;
@@ -112,7 +113,6 @@ struct World
                                        // the writer's history, which keeps the history-based state key exact
   bool sc_only{false};     // every load reads the latest message (sequentially consistent interleavings only)
   bool auto_spin{false};   // spin detection on (whole-system harness)
-  std::function<bool()> custom_wake; // condition of the (single) thread blocked with custom_wait
   int nthreads{MAXT};
   int deviations{0};
   int gen{0};
@@ -434,10 +434,11 @@ inline void block_until_newer(int loc_a, int loc_b)
   T.must_progress = true;
   T.progressed = false;
 }
-// the calling thread waits for a condition over the other threads' scheduling states (set in World::custom_wake)
-inline void block_on_custom_condition()
+// the calling thread waits for a condition over the other threads' scheduling states
+inline void block_on_custom_condition(std::function<bool()> cond)
 {
   Thread& T = W->th[W->cur];
+  T.custom_wake = std::move(cond);
   T.blocked = true;
   T.custom_wait = true;
   T.hist += "W;";
@@ -455,7 +456,7 @@ inline void end_wait_attempt()
 
 inline bool wake_possible(Thread const& T)
 {
-  if (T.custom_wait) return W->custom_wake && W->custom_wake();
+  if (T.custom_wait) return T.custom_wake && T.custom_wake();
   for (int k = 0; k < 2; ++k)
     if (T.wait_loc[k] >= 0 && static_cast<int>(W->locs[static_cast<size_t>(T.wait_loc[k])].mo.size()) - 1 > T.wait_idx[k]) return true;
   return false;
